@@ -92,14 +92,24 @@ if __name__ == "__main__":
     patches = a.patches or (sorted(glob.glob(VERIF + "/selftest/regress/*.diff")) + sorted(glob.glob(VERIF + "/seeded/*/patch.diff")))
     patches = ["CLEAN"] + [os.path.abspath(p) for p in patches]
     props = a.props.split(",")
+    tally = {"benign_silent": 0, "benign_alarm": 0, "breaking_reported": 0, "breaking_missed": 0, "noapply": 0, "error_only": 0}
     with cf.ThreadPoolExecutor(16) as ex:
         for patch, out in ex.map(lambda p: run_one(p, props, a.tier), patches):
             name = patch.replace(VERIF + "/", "")
             fired = [p for p, v in out.items() if isinstance(v, tuple) and v[0] == 1]
             err = [p for p, v in out.items() if isinstance(v, tuple) and v[0] == 2]
+            if "*" in out:
+                tally["noapply"] += 1
+            elif name.startswith("benign/") or name == "CLEAN":
+                tally["benign_alarm" if (fired or err) else "benign_silent"] += 1
+            else:
+                tally["breaking_reported" if fired else ("error_only" if err else "breaking_missed")] += 1
             print(f"{name:55s} fired={','.join(fired) or '-'} error={','.join(err) or '-'}" + (" " + str(out.get('*')) if '*' in out else ""))
             if a.v:
                 for p, v in out.items():
                     if isinstance(v, tuple) and v[0]:
                         for l in v[1]:
                             print("      ", p, l[:230])
+    print("SUMMARY " + " ".join(f"{k}={v}" for k, v in tally.items()))
+    if tally["noapply"]:
+        print("WARNING: some patches no longer apply to /repo HEAD — re-express them on the current tree (nothing was tested for them)")
